@@ -676,6 +676,7 @@ func (c *smtCtx) prelude() string {
 (declare-fun eref (Ref Int) Ref)
 (declare-fun eref_arr (Ref) Ref)
 (declare-fun eref_idx (Ref) Int)
+(declare-fun selem (Slice Int) Ref)
 (declare-fun slen (Str) Int)
 (assert (forall ((qv!s Str)) (! (>= (slen qv!s) 0) :pattern ((slen qv!s)))))
 (define-fun b2i ((b Bool)) Int (ite b 1 0))
@@ -816,6 +817,28 @@ func injectivityAxioms(text string, ifaceSorts []string) string {
 	var sb strings.Builder
 	seen := map[string]bool{}
 	nonGround := false
+	selemNG := false
+	for _, a := range findApps(text, "selem") {
+		if seen[a] {
+			continue
+		}
+		seen[a] = true
+		if !isGroundTerm(a) {
+			selemNG = true
+			continue
+		}
+		args := splitArgs(a)
+		if len(args) != 3 {
+			continue
+		}
+		er := fmt.Sprintf("(eref (s_arr %s) (+ (s_off %s) %s))", args[1], args[1], args[2])
+		fmt.Fprintf(&sb, "(assert (= %s %s))\n", a, er)
+		text += " " + er
+	}
+	if selemNG {
+		nonGround = true
+		sb.WriteString("(assert (forall ((qv!s Slice) (qv!k Int)) (! (= (selem qv!s qv!k) (eref (s_arr qv!s) (+ (s_off qv!s) qv!k))) :pattern ((selem qv!s qv!k)))))\n")
+	}
 	for _, a := range findApps(text, "eref") {
 		if seen[a] {
 			continue
